@@ -12,10 +12,13 @@ NESTED = ["f'{\'\'\'a\nb\'\'\'}'\n", 'f"{\'\'\'a\nb\'\'\'!r:>9}"\n', "x = f'{f\'
           "f'abc\\\n{x}'\n", "f'{x!r}' f'{y!s}' f'{z!a}'\n", "f'{x!r:>{3}}'\n"]
 
 
+BS = chr(92)
+
+
 def shapes(rng, quick):
     prefixes = ["f", "F", "rf", "fR", "Rf"] if not quick else ["f", "rf", "F"]
     quotes = ["'", '"', "'''", '"""']
-    lits = ["", "a", "a b", "é", "it", "#", "a:b", "100%", "x=1"]
+    lits = ["", "a", "a b", "é", "it", "#", "a:b", "100%", "x=1", BS, "a" + BS, BS + "N", BS + "d+", BS + BS]    # incl. a backslash right before / after a field
     fields = ["{a}", "{a!r}", "{a:>10}", "{a!s:^5}", "{a.b[0]}", "{a+b}", "{ a }", "{f(a, b)}", "{a:#x}", "{a:%Y}", "{a:,}", "{(a, b)}", "{a if b else c}", "{a['k']}" ]
     out = []
     for p, q in itertools.product(prefixes, quotes):
